@@ -1,6 +1,7 @@
 package keeper
 
 import (
+	"bytes"
 	"context"
 	"fmt"
 
@@ -193,6 +194,22 @@ func (ms msgServer) CreateValidator(ctx context.Context, msg *poa.MsgCreateValid
 
 	if _, err := ms.k.stakingKeeper.GetValidatorByConsAddr(ctx, sdk.GetConsAddress(pk)); err == nil {
 		return nil, stakingtypes.ErrValidatorPubKeyExists
+	}
+
+	// the operator and the consensus key must not belong to an application that is still pending either
+	pending, err := ms.k.GetPendingValidators(ctx)
+	if err != nil {
+		return nil, err
+	}
+
+	for _, p := range pending.Validators {
+		if p.OperatorAddress == msg.ValidatorAddress {
+			return nil, stakingtypes.ErrValidatorOwnerExists
+		}
+
+		if p.ConsensusPubkey != nil && p.ConsensusPubkey.TypeUrl == msg.Pubkey.TypeUrl && bytes.Equal(p.ConsensusPubkey.Value, msg.Pubkey.Value) {
+			return nil, stakingtypes.ErrValidatorPubKeyExists
+		}
 	}
 
 	if _, err := msg.Description.EnsureLength(); err != nil {
